@@ -44,7 +44,7 @@ PF = gen.Profile(
     max_slots=6,
     container_deps=False,
 )
-PF_WHOLE = replace(PF, subslot=False, odd_eff=False, chain=False, alap_task=True, alternatives=True, container_deps=True, depth=3)
+PF_WHOLE = replace(PF, subslot=False, odd_eff=False, chain=False, alap_task=True, alternatives=True, container_deps=True, depth=3, dated_containers=True)
 
 
 def frame_violations(spec, obs, sc_idx=0):
@@ -81,10 +81,13 @@ def frame_violations(spec, obs, sc_idx=0):
                 if to.start != t.start:
                     vs.append(Violation("milestone_off_pin", name, f"pinned {t.start}, reported {to.start}"))
                 continue
-            # inherited pinned start of a dated container counts as the user's date
-            if any(spec.task_map()[p[:k]].start is not None for k in range(1, len(p))):
-                continue
             bound = obs.start
+            # the start of the nearest dated enclosing container is a lower bound (not a pin)
+            for k in range(len(p) - 1, 0, -1):
+                a = spec.task_map()[p[:k]]
+                if a.start is not None:
+                    bound = max(bound, a.start)
+                    break
             ok = True
             midslot = False
             for q, gap, onstart, _kind, _d in edges.get(p, []):
